@@ -78,7 +78,9 @@ class HashGlobalVarDesc:
         if instance.loaded:
             fd = instance.__dict__[self.name].fd
             data = lookup_elem(fd, pack("B", self.count), 8)
-            return unpack_from(self.fmt, data)[0]
+            # the cell holds the number in native byte order: that is how
+            # __set__ and the program store it and how the program reads it
+            return unpack_from(self.fmt[-1], data)[0]
         ret = instance.__dict__.get(self.name, None)
         if ret is None:
             ret = HashGlobalVar(instance, self.count, self.fmt)
